@@ -89,6 +89,28 @@ func (x *Exec) summary(s *State, name string, fn *ssa.Function, args []*Val, res
 	case "(github.com/kelindar/bitmap.Bitmap).Contains":
 		x.bitmapDecls()
 		return ret(&Val{T: B, S: sx("bitat", sx("bmsrc", x.termOf(s, args[0])), args[1].S)})
+	case "cosmossdk.io/collections.Join":
+		ps := x.c.sortOf(resT)
+		if !strings.HasPrefix(ps, "Pair_") {
+			return false
+		}
+		return ret(&Val{T: resT, S: sx("mk_"+ps, x.termOf(s, args[0]), x.termOf(s, args[1]))})
+	case "(cosmossdk.io/collections.Pair).K1", "(cosmossdk.io/collections.Pair).K2":
+		ps := x.c.sortOf(args[0].T)
+		if !strings.HasPrefix(ps, "Pair_") {
+			return false
+		}
+		acc := "k1_"
+		if strings.HasSuffix(name, "K2") {
+			acc = "k2_"
+		}
+		t := sx(acc+ps, x.termOf(s, args[0]))
+		x.assumeInv(s, resT, t)
+		return ret(x.valOf(s, resT, t))
+	case "encoding/hex.EncodeToString":
+		x.c.P.declare("hexenc", "(declare-fun hexenc (Bytes) Bytes)")
+		x.c.P.axiom("hexenc_ax", []string{"hexenc"}, "(assert (forall ((a Bytes) (b Bytes)) (! (=> (= (hexenc a) (hexenc b)) (= a b)) :pattern ((hexenc a) (hexenc b)))))\n(assert (forall ((a Bytes)) (! (= (blen (hexenc a)) (* 2 (blen a))) :pattern ((hexenc a)))))")
+		return ret(&Val{T: resT, S: sx("hexenc", x.termOf(s, args[0]))})
 	case "math.Ceil":
 		return ret(&Val{T: resT, S: sx("fp.roundToIntegral", "RTP", args[0].S)})
 	case "(*bytes.Reader).Len":
